@@ -81,8 +81,11 @@ def _nevals(rec):
     return len(rec.evaluations()[0])
 
 
-def payload_world(stmt, faults, props):
-    return {"engine": "world", "stmt": stmt, "faults": faults, "props": list(props)}
+def payload_world(stmt, faults, props, step_cap=None):
+    p = {"engine": "world", "stmt": stmt, "faults": faults, "props": list(props)}
+    if step_cap:
+        p["step_cap"] = step_cap
+    return p
 
 
 def apply_props(rec, props, st):
@@ -102,16 +105,20 @@ PROFILES = {
                    p_inconsistent=0.01, p_all_fixed=0.03),
     "C03": profile(p_nonlinear=0.7, p_linear=0.4, p_filter=0.0, p_noise=0.2),
     "C05": profile(p_no_obj=0.2, p_history=0.7, p_callback=0.4),
-    "C06": profile(p_nonlinear=1.0, p_no_obj=0.15, p_disp=0.25, p_scale=0.35, p_fixed=0.4, p_dict=0.4),
+    "C06": profile(p_nonlinear=1.0, p_no_obj=0.15, p_disp=0.25, p_scale=0.35, p_fixed=0.4, p_dict=0.4,
+                   p_mutating_functions=0.2),
     "C07": profile(p_all_fixed=0.08, p_inconsistent=0.08, p_target=0.3, p_no_obj=0.15, p_callback=0.6),
     "C08": profile(p_all_fixed=0.06, p_inconsistent=0.06, p_nan_bound=0.06, p_wide_radii=0.2, p_constants=0.4,
                    p_no_obj=0.12),
     "C09": profile(p_no_obj=0.2, p_callback=1.0, p_nonlinear=0.55, p_inconsistent=0.0, p_all_fixed=0.0),
-    "C20": profile(p_callback=1.0, p_scale=0.4, p_fixed=0.4, p_bounds=0.8, p_inconsistent=0.0, p_all_fixed=0.0),
-    "C11": profile(p_callback=0.5, p_inconsistent=0.02),
+    "C20": profile(p_callback=1.0, p_scale=0.4, p_fixed=0.4, p_bounds=0.8, p_inconsistent=0.0, p_all_fixed=0.0,
+                   p_filter=0.5, p_nonlinear=0.6),
+    "C11": profile(p_callback=0.5, p_inconsistent=0.02, p_no_options=0.4, n_weights=[(3, 1), (5, 2), (4, 3), (1, 4)]),
     "C12": profile(p_nonlinear=0.8, p_callback=0.1, p_inconsistent=0.0, p_all_fixed=0.0, maxfev_hi=140),
     "C18": profile(p_wide_radii=0.35, p_constants=0.6, p_callback=0.1, p_inconsistent=0.0, p_all_fixed=0.0,
-                   maxfev_hi=160),
+                   maxfev_hi=160, p_no_obj=0.15, p_linear=0.5,
+                   obj_fams=[(4, "quad"), (1.5, "cubic"), (1.5, "rosen"), (1.5, "abs"), (1, "maxaff"), (1, "linear"),
+                             (1.5, "const")]),
 }
 
 PROPS_OF = {
@@ -146,7 +153,28 @@ def force_ending(rng, stmt, base):
     return s, how
 
 
-def faulted_case(prop, seed, idx, tier):
+STEP_CAP = 5 * 10 ** 6
+
+
+def enumerate_single_faults(stmt, base, cr, props, st):
+    """C08: every reply-fault kind at every evaluation index of the baseline run, one at a time."""
+    N = _nevals(base)
+    targets = scenario.gen_targets(stmt)
+    if not targets or N == 0 or N > 30:
+        return
+    for kind in ("nan", "pinf", "ninf", "huge"):
+        for k in range(1, N + 1):
+            for tgt in targets[:2]:
+                plan = [{"kind": kind, "target": tgt, "when": {"at": k}}]
+                rec = run_client(stmt, plan)
+                cr.account(rec, nontrivial_needs_fault=True)
+                cr.cut_points += 1
+                st["c08.single_fault_positions"] += 1
+                if not rec.harness_error:
+                    cr.add_viols(apply_props(rec, props, st), payload_world(stmt, plan, props))
+
+
+def faulted_case(prop, seed, idx, tier, step_cap=None):
     cr = CaseResult()
     prof = PROFILES[prop]
     rs = Rng(seed, "scen", prop, idx)
@@ -173,12 +201,16 @@ def faulted_case(prop, seed, idx, tier):
     if prop == "C08":
         level = rf.wpick([(10, 0), (35, 1), (35, 2), (20, 3)])
     plan = scenario.gen_fault_plan(rf, stmt2, _nevals(base), base.ctx.linalg_calls.get("eigh", 0), level=level)
-    if plan or stmt2 is not stmt:
-        rec = run_client(stmt2, plan)
+    if prop == "C08" and idx % 16 == 5:
+        enumerate_single_faults(stmt, base, cr, props, st)
+    if prop == "C08" and step_cap is None and idx % 32 == 7:
+        step_cap = STEP_CAP          # exercise the bounded-progress tracer on a sample of worlds
+    if plan or stmt2 is not stmt or step_cap:
+        rec = run_client(stmt2, plan, step_cap=step_cap)
         cr.account(rec, nontrivial_needs_fault=bool(plan))
         if not rec.harness_error:
             st["fault_worlds"] += 1
-            cr.add_viols(apply_props(rec, props, st), payload_world(stmt2, plan, props))
+            cr.add_viols(apply_props(rec, props, st), payload_world(stmt2, plan, props, step_cap))
     if cr.sample is None:
         cr.sample = {"stmt": stmt2, "faults": plan}
     return cr
@@ -221,6 +253,9 @@ def c20_branch(base, rec_k, k, st):
     """C20.d: stop@k returns exactly what the k-th callback call received."""
     out = []
     cbs = [e for e in base.events if e["k"] == "cb" and not e.get("probe")]
+    if len(cbs) >= k and rec_k.res is None and rec_k.exc is not None and rec_k.ctx.cb_raised:
+        return [Viol("C20", "d", "callback raised StopIteration at call %d and minimize raised %s instead of returning"
+                     % (k, rec_k.exc["type"]), key="stop_raises")]
     if len(cbs) < k or rec_k.res is None:
         return out
     cbk = cbs[k - 1]
@@ -239,6 +274,42 @@ def c20_branch(base, rec_k, k, st):
         out.append(Viol("C20", "d", "callback %d received fun=%r, stopping there returns fun=%r"
                         % (k, cbk["fun"], res["fun"]), key="not_returned_fun"))
     return out
+
+
+def c20_budget_branch(base, rec_k, k, st):
+    """C20.g: "the very point minimize would return if it stopped at that moment" also for a stop by budget:
+    with maxfev = k the run ends after evaluation k; if the penalty in force has not changed in between (probe),
+    the result must be bit-equal to what callback call k received."""
+    out = []
+    cbs = [e for e in base.events if e["k"] == "cb" and not e.get("probe")]
+    if len(cbs) < k or rec_k.res is None or base.probe is None or rec_k.probe is None:
+        return out
+    if rec_k.res["status"] != 5 or rec_k.res["nfev"] != k or rec_k.probe.final is None:
+        st["c20.g_not_a_budget_stop"] += 1
+        return out
+    if len(base.probe.evals) < k or "penalty" not in base.probe.evals[k - 1]:
+        st["c20.g_not_evaluated"] += 1
+        return out
+    if base.probe.evals[k - 1]["penalty"] != rec_k.probe.final["penalty"]:
+        st["c20.g_penalty_changed_guard"] += 1
+        return out
+    cbk = cbs[k - 1]
+    st["c20.g_branches"] += 1
+    if cbk["x"] and np.array(rec_k.res["x"], dtype=float).tobytes() != cbk["x"]:
+        out.append(Viol("C20", "g", "callback call %d received %r but a run stopped by its budget right after that "
+                        "evaluation (same penalty) returns %r" % (k, unpack(cbk["x"]), list(rec_k.res["x"])),
+                        key="budget_stop_point"))
+    elif cbk["fun"] is not None and not beq(float(rec_k.res["fun"]), cbk["fun"]):
+        out.append(Viol("C20", "g", "callback call %d received fun=%r, a budget stop there returns fun=%r"
+                        % (k, cbk["fun"], rec_k.res["fun"]), key="budget_stop_fun"))
+    return out
+
+
+def with_budget(stmt, k):
+    s = copy.deepcopy(stmt)
+    s["options"] = dict(s.get("options") or {})
+    s["options"]["maxfev"] = k
+    return s
 
 
 def prefix_ok(base, rec_k):
@@ -303,6 +374,13 @@ def cut_case(prop, seed, idx, tier):
             if not prefix_ok(base, rk):
                 st["prefix_mismatch"] += 1
             cr.add_viols(v, {"engine": "c20d", "stmt": stmt, "faults": plan, "k": k})
+            if not stmt["callback"].get("mutate") and (k % 2 == 1 or tier == "thorough"):
+                rb = run_client(with_budget(stmt, k), plan)
+                cr.account(rb)
+                cr.cut_points += 1
+                if not rb.harness_error:
+                    cr.add_viols(c20_budget_branch(base, rb, k, st),
+                                 {"engine": "c20g", "stmt": stmt, "faults": plan, "k": k})
     elif prop == "C09":
         evs, _ = eval_table(base)
         tol = feas_tol(stmt)
@@ -399,7 +477,7 @@ def replay_payload(p):
     st = Counter()
     eng = p["engine"]
     if eng == "world":
-        rec = run_client(p["stmt"], p["faults"])
+        rec = run_client(p["stmt"], p["faults"], step_cap=p.get("step_cap"))
         if rec.harness_error:
             raise RuntimeError(rec.harness_error)
         return apply_props(rec, p["props"], st)
@@ -409,6 +487,12 @@ def replay_payload(p):
         if base.harness_error or rk.harness_error:
             raise RuntimeError(base.harness_error or rk.harness_error)
         return c20_branch(base, rk, p["k"], st) + W.c20(rk, st)
+    if eng == "c20g":
+        base = run_client(p["stmt"], p["faults"])
+        rb = run_client(with_budget(p["stmt"], p["k"]), p["faults"])
+        if base.harness_error or rb.harness_error:
+            raise RuntimeError(base.harness_error or rb.harness_error)
+        return c20_budget_branch(base, rb, p["k"], st)
     if eng == "c20f":
         base = run_client(p["stmt"], p["faults"])
         s2 = copy.deepcopy(p["stmt"])
